@@ -80,6 +80,7 @@ Theorem C21_source_facts :
   gen_static_valid_true_only_when_passwords_compare_equal = true /\
   gen_valid_looks_up_exactly_the_presented_user = true /\
   gen_valid_reads_no_package_state = true /\
-  gen_authenticate_succeeds_only_after_valid = true.
+  gen_authenticate_succeeds_only_after_valid = true /\
+  gen_authenticate_buffers_are_fresh = true /\ gen_handshake_does_not_swallow_panics = true.
 Proof. repeat split; reflexivity. Qed.
 Print Assumptions C21_source_facts.
